@@ -111,6 +111,14 @@ def replace_typevars(ty: t.Any,
     if isinstance(ty, t.Sequence) and not isinstance(ty, (str, bytes)):
         return type(ty)(replace_typevars(t, replacements) for t in ty)  # type: ignore
 
+    if isinstance(ty, type) and '__pane_boundvars__' in ty.__dict__:
+        # parameterized pane dataclass (e.g. a field of type `Box[T]`): re-subscript the generic class
+        origin = ty.__dict__['__origin__']
+        bound = ty.__dict__['__pane_boundvars__']
+        old_args = tuple(bound[var] for var in origin.__parameters__)
+        new_args = tuple(replace_typevars(arg, replacements) for arg in old_args)
+        return ty if new_args == old_args else origin[new_args]
+
     base = t.get_origin(ty) or ty
     args = t.get_args(ty)
 
